@@ -224,15 +224,23 @@ class SyncInterpreter(BaseInterpreter[TContext, TEvent]):
         # transitioning away from a half-built configuration and leaving two
         # active leaves. Guarding defers such events until entry has settled,
         # after which the queue is drained normally.
+        #
+        # 🔄 The initial eventless ("always") transitions belong to the same
+        # macrostep and settle behind the same guard, before anything raised
+        # is looked at (the async engine does the same). They used to run
+        # after the guard was dropped: an event raised or sent by one of
+        # their actions was then processed re-entrantly, in the middle of
+        # that transition - between the exit and the entry, where no state
+        # handles it - and was silently lost.
         self._is_processing = True
+        self._drain_owner = threading.get_ident()
         try:
             self._enter_states([self.machine])
+            self._process_transient_transitions()
         finally:
             self._is_processing = False
-        # 📬 Drain anything an entry action raised during that descent.
+        # 📬 Drain anything raised during that initial macrostep.
         self._process_event_queue()
-        # 🔄 Process any immediate "always" transitions upon startup.
-        self._process_transient_transitions()
 
         # Capture the post-transition state set after initialization
         post_states = set(self._active_state_nodes)
